@@ -248,9 +248,11 @@ PROPS = {
                 "any client's copy from the untouched service truth is a violation; plus direct-drive op sequences with bad events on one cached resource; "
                 "plus the value decoder codec.Value.UnmarshalJSON on generated value texts (objects of 0-4 members over the four field names in any ASCII case, "
                 "foreign keys, duplicates, nulls, wrong JSON types, valid / empty / invalid rids, delete / unknown actions, data of every JSON kind, blanks) compared "
-                "with the extracted model Pure/ValueDec.v: type, rid, raw text, inner text or the kind of rejection",
+                "with the extracted model Pure/ValueDec.v: type, rid, raw text, inner text or the kind of rejection; plus codec.DecodeGetResponse and "
+                "codec.DecodeCallResponse on generated payloads (fields present / absent / null in any order, every class of value, model and collection together, "
+                "broken and ill-typed payloads) compared with the extracted Pure/RespDec.v",
         "assumptions": ["memory exhaustion and the encoding/json / gorilla layers are outside the model"],
-        "technique": "Coq proofs (inapplicable events discarded as a whole; diff indices always in range; throttle never panics; value objects: a reference needs a non-empty valid rid and nothing else, delete needs exactly the delete action, acceptance needs exactly one of rid/action/data and no ill-typed member) + differential correspondence of the real value decoder with the extracted model + fault injection into scheduled histories of the real gateway, one process per history, with the Coq monitors checking that bad input has no effect",
+        "technique": "Coq proofs (inapplicable events discarded as a whole; diff indices always in range; throttle never panics; value objects: a reference needs a non-empty valid rid and nothing else, delete needs exactly the delete action, acceptance needs exactly one of rid/action/data and no ill-typed member; get answers: model xor collection, proper values only; call answers: error, then valid resource, then result) + differential correspondence of the real value and response decoders with the extracted models + fault injection into scheduled histories of the real gateway, one process per history, with the Coq monitors checking that bad input has no effect",
         "level_text": "Decision logic for discarding bad input proved on the cache-side model (tied by direct-drive differential); process survival and absence of stalls checked by fault injection on the real code",
         "level_note": "trusted: Coq kernel, extraction, the harness (mock messaging system, consistent mock service, scheduler hooks, frame abstraction in harness/internal/gw); task atomicity (DESIGN section 4); modelled not verified: encoding/json, gorilla/websocket",
     },
@@ -260,8 +262,8 @@ PROPS = {
         "harness": ["purediff"],
         "stages": [("pure", stage_pure, {"suites": ["render", "httppath"], "n_quick": 6000, "n_thorough": 150000})],
         "rule": "random subscription graphs of 1-5 resources (models, collections, error leaves) with references to any node including "
-                "itself and ancestors (cycles of any length), soft references, data values, primitives and keys needing JSON escaping, under 3 apiPath "
-                "prefixes, run through the real encoders (json and jsonflat) by a verif-tagged export; the body must parse as JSON without duplicate "
+                "itself and ancestors (cycles of any length), soft references, data values, primitives and keys needing JSON escaping (quotes, backslash, <>, DEL, control characters, an invalid UTF-8 byte), under 3 apiPath "
+                "prefixes, run through the real encoders (json and jsonflat) by a verif-tagged export; the body must parse as JSON (RFC 8259 escapes only) without duplicate "
                 "members and equal the model's output up to object member order; non-trivial = more than one resource",
         "assumptions": ["encoding/json string escaping of keys and hrefs is taken from the harness's own json.Marshal calls", "HTTP status/headers of POST/HEAD are checked on gateway traces (http profile), not here"],
         "technique": "Coq proof (encoder output = print of the expansion tree, for all graphs; fuel n+1 always suffices, i.e. termination on cyclic graphs) + differential correspondence of both real encoders with the extracted model on random cyclic graphs",
